@@ -21,6 +21,11 @@ round 5  : api "udp-iter" / "audp-iter": ONE `iter_received_packets(timeout=…)
           one; direct recv_packet() calls in between): k datagrams = exactly k observations in order, then the end, nothing left
           (vlib/c05_iter.py, docs/C05.md); api "sync-rx" / "async-rx": the one-directional endpoint classes; a legal packet the
           one-shot serialize() refuses is a failing input (kind "unserializable"), not a generator crash.
+round 6  : wrappers x inner serializers at the size boundaries of the INNER serialization (vlib/c05_edge.py): every wrapper
+          configuration (base64 x alphabets x no checksum / sha256 / keyed, zlib, bz2, wrappers of wrappers) x every inner
+          serializer whose output size the harness can choose (line, raw bytes, fixed size, struct, JSON) x inner sizes 0, 1 … 8,
+          31 / 32 / 33, 63 / 64 / 65, 95 / 96 / 97, … through every API above; the ordinary generator also draws packets whose
+          INNERMOST serialization is empty under any wrapper.
 """
 from __future__ import annotations
 
@@ -30,7 +35,7 @@ import socket
 from collections.abc import Generator
 from typing import Any
 
-from vlib import c05_iter, core, sers, streamdrive as sd
+from vlib import c05_edge, c05_iter, core, sers, streamdrive as sd
 
 from easynetwork.exceptions import DatagramProtocolParseError
 from easynetwork.lowlevel.api_async.backend._asyncio.backend import AsyncIOBackend
@@ -542,6 +547,12 @@ def shrink(case: dict):
                    "kinds": case["kinds"][:i] + case["kinds"][i + 1:]}
     if case.get("send"):
         yield {**case, "send": []}
+        send = case["send"]
+        if len(send) > 1:
+            yield {**case, "send": send[:len(send) // 2]}
+            yield {**case, "send": send[len(send) // 2:]}
+            for i in range(len(send)):
+                yield {**case, "send": send[:i] + send[i + 1:]}
 
 
 def known_key(case: dict, real: list[str], why: str) -> str:
@@ -618,6 +629,10 @@ def _gen_packet(rng, spec: dict) -> Any:
         # a packet whose one-shot serialization is EMPTY ("" for the line serializer, also inside base64 / behind a pass-through
         # serializer): an empty datagram is a datagram
         p = sers.empty_packet(spec)
+        if p is None:
+            # round 6: … or whose INNERMOST serialization is empty while the wrapper adds something of its own (digest, compressor
+            # header): the shortest datagram the wrapper can produce
+            p = c05_edge.leaf_empty_packet(spec)
         if p is not None:
             return p
     return sers.gen_packet(rng, spec, 8)
@@ -744,6 +759,7 @@ def corpus() -> list[dict]:
                             "send": [sers.enc_val(t) for t in texts], "conv": api == "async"})
     out += _session4_corpus()
     out += _round5_corpus()
+    out += c05_edge.corpus()
     return out
 
 
@@ -852,6 +868,9 @@ def generate(rng, tier: str, boost: int):
     # round 5: the iterator entry points of both UDP clients (one iterator object across the whole sequence)
     for _ in range((220 if tier == "quick" else 2400) * boost):
         yield _gen_seq(rng, rng.choice(c05_iter.ITER_APIS))
+    # round 6: wrappers x inner serializers at the size boundaries of the inner serialization, mixed with malformed datagrams
+    for _ in range((260 if tier == "quick" else 6000) * boost):
+        yield c05_edge.gen_case(rng, _gen_iter_schedule)
     # datagrams near the maximum UDP payload must not be truncated by the receive buffer size
     for size in ([1000, 16384, 16385, 40000, 65000] if tier == "quick" else [1000, 8192, 16384, 16385, 20000, 32768, 40000, 65000, 65507]):
         for api in ("udp", "audp", "sync-socket"):
